@@ -320,11 +320,27 @@ class CheckingStore(dict):
 TAGNAMES = {0: "bool", 1: "int", 2: "real", 3: "complex", 4: "real array", 5: "complex array", 7: "bool array", 10: "user type u", 11: "user type w"}
 
 
-def infer(prog):
+def infer(prog, order_no=0):
+    """Build and infer.  The presentation order of a phase's statements is an
+    input (the builder stores a frozenset): order_no selects program order
+    (0), reversed (1) or a deterministic shuffle (>= 2)."""
     import contextlib
     import io
+    import dagrt.language as L
     from dagrt.data import infer_kinds
-    dag, _ = pg.build_dag(prog)
+    dag0, builders = pg.build_dag(prog)
+    phases = {}
+    for name, ph in dag0.phases.items():
+        stmts = list(builders[name].statements)
+        if order_no == 1:
+            stmts.reverse()
+        elif order_no >= 2:
+            random.Random(order_no).shuffle(stmts)
+        phases[name] = L.ExecutionPhase(name=name, next_phase=ph.next_phase, statements=stmts)
+    names = list(phases)
+    if order_no % 2 == 1:
+        names.reverse()
+    dag = L.DAGCode({n: phases[n] for n in names}, dag0.initial_phase)
     with contextlib.redirect_stdout(io.StringIO()):
         table = infer_kinds(dag, registry())
     return dag, table
@@ -370,11 +386,26 @@ def harness(prog, dag, table, K):
     return h
 
 
-def check_program(prog, K, max_paths):
+def check_program(prog, K, max_paths, orders=(0, 1, 2)):
+    from vf.symx import Stats
+    st = Stats()
+    info = {"inferred": False, "paths": 0}
+    for order_no in orders:
+        s, cand, i = check_program_order(prog, K, max_paths, order_no)
+        st.add(s)
+        info["inferred"] = info["inferred"] or i["inferred"]
+        info["paths"] += i["paths"]
+        if cand is not None:
+            cand["order_no"] = order_no
+            return st, cand, info
+    return st, None, info
+
+
+def check_program_order(prog, K, max_paths, order_no):
     from vf.symx import Stats
     st = Stats()
     try:
-        dag, table = infer(prog)
+        dag, table = infer(prog, order_no)
     except Exception:  # noqa
         return st, None, {"inferred": False, "paths": 0}
     st.obligations += 1
@@ -479,8 +510,20 @@ def replay(d):
         hit = [p for p in probs if p["builtin"] == d["builtin"]]
         return {"reproduced": bool(hit), "detail": str(hit[:1])}
     prog = d["prog"]
+    last = None
+    for order_no in [d.get("order_no", 0)] + [o for o in range(0, 12) if o != d.get("order_no", 0)]:
+        r = replay_order(d, prog, order_no)
+        if r["reproduced"]:
+            r["detail"] += " [statement presentation order %d]" % order_no
+            return r
+        last = r
+    return last
+
+
+def replay_order(d, prog, order_no):
+    import numpy as np
     try:
-        dag, table = infer(prog)
+        dag, table = infer(prog, order_no)
     except Exception as e:  # noqa
         return {"reproduced": False, "detail": "inference fails on replay: %s" % e}
     if d["kind"] in ("nokind", "nonekind"):
